@@ -10,6 +10,14 @@ Tie      generated forests are built as REAL insights.parsr.query.Entry trees (p
          every (deep, roots) combination.  The identities of the returned nodes are compared with
          IV.Query (Drivers/C20.lean).  Boolean expressions: b.test(v) and b.to_pyfunc()(v) against
          BExp.interp / BExp.compiled, and the harness's reference evaluation against evalC / nonRaising.
+Identity forests in which 2-4 hit-bearing trees / subtrees are deep copies of each other next to slightly different
+         ones (the same document loaded several times in Result(children=[d1, d2, d3]), identical parentless tops
+         handed to the module-level select, one tree with the same subtree repeated at several levels and below
+         itself), queried with select/find/[]/where, roots and deep on and off, Result.roots/.parents/.upto(q).
+         Every real Entry is tagged with a hidden index in a side table keyed by id(); the trees are sent to the
+         model WITHOUT any identity (content only) and the model answers with positions (paths), which are mapped
+         back to the hidden indexes: identical content must never collapse nodes.  Entry.__eq__/__hash__ on
+         distinct identical nodes is recorded in the evidence, not assumed.
 Values   operation HISTORIES with shared sub-expressions (exec_prog / gen_history, driver request `prog`): a
          combination b nested to depth >= 3 is built and compiled, then used — the same object — as left and right
          operand of & and |, in chains ((b & c) & d, continued from derived objects), under ~, inside
@@ -148,7 +156,8 @@ def tok_query(q):
 
 
 def tok_tree(t):
-    out = ["T", str(t["id"]), tok_val(t["name"]), str(len(t["attrs"]))] + [tok_val(a) for a in t["attrs"]]
+    # content only: the hidden index t["id"] is NOT sent; the model identifies nodes by their position (path)
+    out = ["T", tok_val(t["name"]), str(len(t["attrs"]))] + [tok_val(a) for a in t["attrs"]]
     out.append(str(len(t["children"])))
     for c in t["children"]:
         out += tok_tree(c)
@@ -163,6 +172,10 @@ def tok_step(s):
         return out
     if s[0] == "W":
         return ["W"] + tok_eq(s[1])
+    if s[0] in ("R", "P"):
+        return [s[0]]
+    if s[0] == "U":
+        return ["U"] + tok_query(s[1])
     return ["G"] + tok_query(s[1])
 
 
@@ -173,7 +186,56 @@ def sel_line(case):
     steps = [str(len(case["steps"]))]
     for s in case["steps"]:
         steps += tok_step(s)
-    return "sel\t%s\t%s\t%s" % (case["start"], " ".join(docs), " ".join(steps))
+    return "sel\t%s\t%s\t%s" % (start_tok(case["start"], case["docs"]), " ".join(docs), " ".join(steps))
+
+
+def node_paths(docs):
+    """hidden index -> position "i.j.k" (document number, then child indexes): the model's identity"""
+    out = {}
+
+    def walk(t, p):
+        out[t["id"]] = p
+        for k, c in enumerate(t["children"]):
+            walk(c, p + "." + str(k))
+    for i, t in enumerate(docs):
+        walk(t, str(i))
+    return out
+
+
+def start_tok(start, docs):
+    a = start.split()
+    if a[0] == "node":
+        return "node " + node_paths(docs)[int(a[1])]
+    return start
+
+
+def ids_from_paths(out, docs):
+    """a model answer (paths) as hidden indexes, to be compared with what the real objects were tagged with"""
+    if out in ("-", "err", "bad-op"):
+        return out
+    back = dict((p, i) for i, p in node_paths(docs).items())
+    return ",".join(str(back.get(p, "?" + p)) for p in out.split(","))
+
+
+def model_sel(cases, start=None):
+    outs = run_driver("C20", [sel_line(c if start is None else dict(c, start=start)) for c in cases])
+    return [ids_from_paths(o, c["docs"]) for o, c in zip(outs, cases)]
+
+
+def model_prog(progs):
+    outs = run_driver("C20", [prog_line(pr) for pr in progs])
+    res = []
+    for o, pr in zip(outs, progs):
+        if o == "bad-op":
+            res.append(o)
+            continue
+        kinds = [st[0] for st in pr["stmts"] if st[0] in ("TB", "TE", "Q")]
+        parts = o.split(";")
+        if len(parts) != len(kinds):
+            res.append("bad-shape:" + o)
+            continue
+        res.append(";".join(ids_from_paths(x, pr["docs"]) if k == "Q" else x for x, k in zip(parts, kinds)))
+    return res
 
 
 def bool_line(case):
@@ -350,6 +412,12 @@ def run_impl(case, tops=None, ident=None, conf=None, env=None):
                 nxt = go(roots)
             elif s[0] == "W":
                 nxt = real_where(cur, s, env)
+            elif s[0] == "R":
+                nxt = cur.roots
+            elif s[0] == "P":
+                nxt = cur.parents
+            elif s[0] == "U":
+                nxt = cur.upto(real_query(s[1], env))
             else:
                 nxt = cur[real_query(s[1], env)]
             cur = nxt
@@ -557,6 +625,18 @@ def oracle_select(chk, case, impl, plain_ids):
             else:
                 exp = [i for i in cur if ref_eq(s[1], doc.by_id[i])]
             deep, roots, qs = False, False, []
+        elif s[0] in ("R", "P", "U"):      # Result.roots / .parents / .upto(q): first-occurrence de-duplication BY NODE
+            exp = []
+            for i in cur:
+                if s[0] == "R":
+                    x = doc.ultimate(i)
+                elif s[0] == "P":
+                    x = doc.parent[i] if doc.parent[i] is not None else i
+                else:
+                    x = next((a for a in doc.ancestors(i) if ref_query(s[1], doc.by_id[a])), None)
+                if x is not None and x not in exp:
+                    exp.append(x)
+            deep, roots, qs = False, False, []
         else:
             deep, roots, qs = bool(s[1]), bool(s[2]), s[3]
             if not qs:
@@ -580,6 +660,9 @@ def oracle_select(chk, case, impl, plain_ids):
                 chk.failure("deep search from a Result whose nodes nest: returned %s (duplicates), expected %s" % (got_plain, exp_s),
                             case, finding="nested-result-duplicates")
                 chk.count("oracle:nested-result-duplicates")
+            elif s[0] in ("R", "P", "U"):
+                chk.failure("Result.%s returned %s; de-duplicated by NODE (not by content), in first-occurrence order, it is %s"
+                            % ({"R": "roots", "P": "parents", "U": "upto(q)"}[s[0]], got_plain, exp_s), case)
             else:
                 chk.failure("query returned %s, the matching chains end (in document order) at %s" % (got_plain, exp_s), case)
         if roots:
@@ -760,7 +843,175 @@ def gen_sel_case(rng, max_nodes):
         steps.append(get_step() if k < 0.15 else where_step() if k < 0.27 else sel_step(True))
     else:
         steps.append(sel_step(True))
+    maybe_tail(rng, steps, names, start)
     return {"start": start, "docs": docs, "steps": steps, "via_find": rng.random() < 0.5}
+
+
+def maybe_tail(rng, steps, names, start, p=0.12):
+    """Result.roots / .parents / .upto(q) on what the pipeline produced (a Result)"""
+    last = steps[-1]
+    if start == "fn" and len(steps) == 0:
+        return
+    if last[0] == "S" and (last[2] or not last[3]):
+        return
+    if rng.random() < p:
+        k = rng.random()
+        if k < 0.35:
+            steps.append(["R"])
+        elif k < 0.7:
+            steps.append(["P"])
+        else:
+            q = gen_query(rng, names)
+            if q[0] == "qn" and q[1][0] == "lit" and q[1][1] is None:
+                q = ["qn", ["any"]]
+            steps.append(["U", q])
+
+
+def gen_identical_case(rng):
+    """
+    Forests in which 2-4 hit-bearing trees / subtrees are STRUCTURALLY IDENTICAL (deep copies) next to slightly
+    different ones: several documents (Result(children=[d1, d2, d3]), module-level select over the tops) and single
+    trees with the same subtree repeated at several levels.  Every node gets its own hidden index.
+    """
+    import copy
+    names = rng.sample(sorted(set(NAMES)), rng.choice([2, 2, 3]))
+
+    def gen_base(depth):
+        t = {"name": rng.choice(names), "attrs": [gen_val(rng) for _ in range(rng.choice([0, 1, 1, 2]))], "children": []}
+        if depth < 2:
+            for _ in range(rng.choice([1, 2, 2, 3]) if depth == 0 else rng.choice([0, 1, 2])):
+                t["children"].append(gen_base(depth + 1))
+        return t
+
+    def nodes_of(t):
+        out = [t]
+        for c in t["children"]:
+            out += nodes_of(c)
+        return out
+
+    def variant(t):
+        v = copy.deepcopy(t)
+        n = rng.choice(nodes_of(v))
+        k = rng.random()
+        if k < 0.35:
+            n["attrs"] = n["attrs"] + [gen_val(rng)]
+        elif k < 0.6 and n["children"]:
+            n["children"].pop()
+        elif k < 0.8:
+            n["name"] = rng.choice(names + ["c"])
+        else:
+            n["children"].append({"name": rng.choice(names), "attrs": [], "children": []})
+        return v
+
+    def wrap(children, name=None):
+        return {"name": name if name is not None else rng.choice(names + ["w"]), "attrs": [], "children": children}
+    base = gen_base(0)
+    cp = lambda: copy.deepcopy(base)
+    layout = rng.choice(["docs", "docs", "tops", "tree", "tree"])
+    if layout == "docs":            # the same document loaded several times, next to a slightly different one
+        doc = {"name": None, "attrs": [], "children": [cp()] + ([cp()] if rng.random() < 0.3 else []) +
+               ([gen_base(1)] if rng.random() < 0.4 else [])}
+        docs = [copy.deepcopy(doc) for _ in range(rng.choice([2, 3, 4]))]
+        for _ in range(rng.choice([0, 1, 1, 2])):
+            d = copy.deepcopy(doc)
+            d["children"][0] = variant(d["children"][0])
+            docs.append(d)
+        rng.shuffle(docs)
+        r = rng.random()
+        start = "res" if r < 0.55 else "fn" if r < 0.75 else "doc %d" % rng.randrange(len(docs))
+    elif layout == "tops":          # identical parentless trees handed to the module-level select / wrapped in a Result
+        docs = [cp() for _ in range(rng.choice([2, 3, 4]))] + [variant(base) for _ in range(rng.choice([0, 1, 2]))]
+        rng.shuffle(docs)
+        start = "fn" if rng.random() < 0.6 else "res"
+    else:                           # one tree, the same subtree repeated at several levels
+        inner = cp()
+        leafs = [n for n in nodes_of(inner) if not n["children"]]
+        if leafs and rng.random() < 0.6:
+            rng.choice(leafs)["children"].append(cp())          # a copy below a copy
+        kids = [cp(), variant(base), cp(), wrap([cp(), cp()], "w"), wrap([cp(), cp()], "w"),
+                wrap([wrap([cp()])]), inner, copy.deepcopy(inner)]
+        rng.shuffle(kids)
+        kids = kids[:rng.randint(3, len(kids))]
+        docs = [{"name": None, "attrs": [], "children": kids}]
+        if rng.random() < 0.3:
+            docs.append(copy.deepcopy(docs[0]))
+        r = rng.random()
+        start = "doc 0" if r < 0.55 else "res" if r < 0.8 else "node"
+    nid = [0]
+
+    def number(t):
+        t["id"] = nid[0]
+        nid[0] += 1
+        for c in t["children"]:
+            number(c)
+    for d in docs:
+        number(d)
+    if start == "node":
+        start = "node %d" % rng.randrange(nid[0])
+
+    def q_for(n):
+        """a query level the node n (of the base subtree) satisfies, mostly"""
+        k = rng.random()
+        if k < 0.55:
+            return ["qn", ["lit", n["name"]]]
+        if k < 0.68:
+            return ["qn", ["any"]]
+        if k < 0.85 and n["attrs"]:
+            return ["qt", ["lit", n["name"]], [["lit", rng.choice(n["attrs"])]]]
+        if k < 0.93:
+            return ["qn", ["b", ["p", rng.choice(["eq", "le", "ge", "startswith"]), n["name"]]]]
+        return gen_query(rng, names)
+
+    def chain(deep):
+        n = rng.choice(nodes_of(base)) if deep and rng.random() < 0.6 else base
+        out = [n]
+        while n["children"] and rng.random() < 0.6:
+            n = rng.choice(n["children"])
+            out.append(n)
+        return out
+
+    def sel_step(last):
+        deep = rng.random() < 0.55
+        if rng.random() < 0.8:
+            qs = [q_for(n) for n in chain(deep)]
+            if not deep and layout == "docs" and start == "fn":
+                qs.insert(0, ["qn", ["any"]])
+        else:
+            qs = [gen_query(rng, names) for _ in range(rng.choice([1, 1, 2, 2, 3]))]
+        return ["S", deep, last and rng.random() < 0.5, qs]
+
+    def get_step():
+        q = q_for(base) if rng.random() < 0.75 else gen_query(rng, names)
+        if q[0] == "qn" and q[1][0] == "lit" and isinstance(q[1][1], int):
+            q = ["qt", q[1], []]
+        return ["G", q]
+
+    def where_step():
+        if base["children"] and rng.random() < 0.7:
+            c = rng.choice(base["children"])
+            e = ["child", ["lit", c["name"]], None]
+            if rng.random() < 0.3:
+                e = rng.choice([["enot", e], ["eor", e, ["anyA", ["lit", gen_val(rng)]]]])
+        else:
+            e = gen_eq(rng, names, rng.choice([0, 1]))
+        return ["W", e, rng.choice(["obj", "nv"])]
+    steps = []
+    if start == "fn":
+        steps.append(sel_step(rng.random() < 0.6))
+    else:
+        k = rng.random()
+        steps.append(sel_step(rng.random() < 0.45) if k < 0.65 else get_step() if k < 0.85 else where_step())
+    if not (steps[-1][0] == "S" and steps[-1][2]):
+        k = rng.random()
+        if k < 0.2:
+            steps.append(sel_step(True))
+        elif k < 0.3:
+            steps.append(get_step())
+        elif k < 0.36:
+            steps.append(where_step())
+        else:
+            maybe_tail(rng, steps, names, start, p=0.7)
+    return {"start": start, "docs": docs, "steps": steps, "via_find": rng.random() < 0.5, "layout": layout}
 
 
 # generated nginx configuration, parsed by the real parser
@@ -859,7 +1110,9 @@ def expand_step(s, envd):
         return ["S", s[1], s[2], [expand_query(q, envd) for q in s[3]]]
     if s[0] == "W":
         return ["W", expand_eq(s[1], envd)] + list(s[2:])
-    return ["G", expand_query(s[1], envd)]
+    if s[0] in ("R", "P"):
+        return list(s)
+    return [s[0], expand_query(s[1], envd)]
 
 
 def snap(o):
@@ -894,7 +1147,7 @@ def interp_ref(b, v):
     return leaf_ref(b, v) is True
 
 
-def tok_stmt(st):
+def tok_stmt(st, docs):
     k = st[0]
     if k == "LB":
         return ["LB"] + tok_bexp(st[1])
@@ -903,9 +1156,10 @@ def tok_stmt(st):
     if k == "TB":
         return ["TB", str(st[1]), str(len(st[2]))] + [tok_val(v) for v in st[2]]
     if k == "TE":
-        return ["TE", str(st[1]), str(len(st[2]))] + [str(i) for i in st[2]]
+        paths = node_paths(docs)
+        return ["TE", str(st[1]), str(len(st[2]))] + [paths[i] for i in st[2]]
     if k == "Q":
-        a = st[1].split()
+        a = start_tok(st[1], docs).split()
         out = ["Q", a[0], a[1] if len(a) > 1 else "-", str(len(st[2]))]
         for s in st[2]:
             out += tok_step(s)
@@ -919,7 +1173,7 @@ def prog_line(prog):
         docs += tok_tree(t)
     n_out = [str(len(prog["stmts"]))]
     for st in prog["stmts"]:
-        n_out += tok_stmt(st)
+        n_out += tok_stmt(st, prog["docs"])
     return "prog\t%s\t%s" % (" ".join(docs), " ".join(n_out))
 
 
@@ -1216,7 +1470,7 @@ def witness_parentless():
 
 def run_sel_batch(chk, name, cases, impls):
     """impls: list of (answer, plain) already computed on the real objects"""
-    model = run_driver("C20", [sel_line(c) for c in cases])
+    model = model_sel(cases)
     chk.compare(name, cases, [a for a, _ in impls], model,
                 show=lambda c: {"kind": "sel", "case": c})
     for c, (a, plain) in zip(cases, impls):
@@ -1246,7 +1500,8 @@ def run(chk):
     chk.assumptions = [
         "opaque callables are a parameter of the theorems; the tie instantiates one concrete family (opq / opqEnv)",
         "str.lower is modelled on ASCII + Latin-1 only; the generator alphabet stays inside it (checked per run)",
-        "Entry identity is modelled by unique ids given by the generator; values are None/int/str (no bool/float)",
+        "Entry identity is modelled by position (path) in the forest; the harness tags real entries in a side table keyed by id(); "
+        "values are None/int/str (no bool/float)",
     ]
     chk.lean()
     check_lower(chk)
@@ -1258,7 +1513,7 @@ def run(chk):
         chk.witnesses.append(fn)
         if data["kind"] == "prog":
             a = exec_prog(c, _ProgSink(chk, c))
-            chk.compare("corpus-history", [c], [a], run_driver("C20", [prog_line(c)]), show=lambda x: {"kind": "prog", "case": x})
+            chk.compare("corpus-history", [c], [a], model_prog([c]), show=lambda x: {"kind": "prog", "case": x})
             chk.case(("corpus", fn), True)
         elif data["kind"] == "bool":
             t, cc = impl_bool(c)
@@ -1345,8 +1600,39 @@ def run(chk):
             for c, i in list(zip(cases, impls))[3:5]:
                 chk.sample({"select": {"start": c["start"], "steps": c["steps"], "nodes": len(Doc(c["docs"]).order)}, "impl": i[0]})
 
+    # ---- stream 2a: identity vs content — forests with structurally identical (deep-copied) trees and subtrees
+    a_, b_ = Entry("x", ("v", 1), [Entry("y", ("z",))]), Entry("x", ("v", 1), [Entry("y", ("z",))])
+    try:
+        chk.extra["entry_eq_for_distinct_identical_content"] = {
+            "a == b": bool(a_ == b_), "hash(a) == hash(b)": hash(a_) == hash(b_),
+            "note": "recorded, not required: the expected results below are by node identity whatever this is"}
+    except Exception as ex:
+        chk.extra["entry_eq_for_distinct_identical_content"] = "raised " + type(ex).__name__
+    n_ident = 1500 if quick else 20000
+    seen = set()
+    for lo in range(0, n_ident, BATCH):
+        cases, impls = [], []
+        for _ in range(min(BATCH, n_ident - lo)):
+            c = gen_identical_case(rng)
+            tops, ident, _k = build_entries(c["docs"])
+            a, plain = run_impl(c, tops, ident)
+            cases.append(c)
+            impls.append((a, plain_ids(plain, ident)))
+            k = hash(case_key(c))
+            chk.case(k, a.count(",") >= 1 and k not in seen)
+            seen.add(k)
+            chk.count("identical:layout-%s" % c["layout"])
+            chk.count("identical:start-%s" % c["start"].split()[0])
+            chk.count("identical:last-%s" % c["steps"][-1][0])
+            chk.count("identical:result-%s" % ("err" if a == "err" else "empty" if a == "-" else "exc" if a.startswith("exc")
+                                               else "one" if "," not in a else "several"))
+        run_sel_batch(chk, "identical-content forests (identity, not content)", cases, impls)
+        if lo == 0:
+            chk.sample({"identical": {"layout": cases[0]["layout"], "start": cases[0]["start"], "steps": cases[0]["steps"],
+                                      "nodes": len(Doc(cases[0]["docs"]).order)}, "impl": impls[0][0]})
+
     # ---- stream 2b: histories with shared sub-expressions (combinations are values)
-    n_hist = 250 if quick else 4000
+    n_hist = 250 if quick else 3000
     for lo in range(0, n_hist, 500):
         progs, impl = [], []
         for _ in range(min(500, n_hist - lo)):
@@ -1358,7 +1644,7 @@ def run(chk):
             chk.count("history:statements", len(pr["stmts"]))
             chk.count("history:bindings", sum(1 for st in pr["stmts"] if st[0] in ("LB", "LE")))
             chk.count("history:re-evaluations", sum(1 for st in pr["stmts"] if st[0] in ("TB", "TE", "Q")))
-        model = run_driver("C20", [prog_line(pr) for pr in progs])
+        model = model_prog(progs)
         chk.compare("histories:bindings re-evaluated after later combinations", progs, impl, model,
                     show=lambda pr: {"kind": "prog", "case": pr})
         if lo == 0 and progs:
@@ -1400,7 +1686,7 @@ def run(chk):
                 chk.count("nginx:result-%s" % ("empty" if a == "-" else "nodes" if a[0].isdigit() else a))
         if not cases:
             continue
-        model = run_driver("C20", [sel_line(dict(c, start="doc 0")) for c in cases])
+        model = model_sel(cases, start="doc 0")
         chk.compare("nginx:ConfigComponent", cases, [a for a, _ in impls], model, show=lambda c: {"kind": "sel", "case": c})
         for c, (a, plain) in zip(cases, impls):
             oracle_select(chk, c, a, plain)
@@ -1440,7 +1726,7 @@ def replay(data):
         for st in c["stmts"]:
             print("  ", json.dumps(st, ensure_ascii=False)[:200])
         a = exec_prog(c, rec)
-        m = run_driver("C20", [prog_line(c)])[0]
+        m = model_prog([c])[0]
         print("impl  ", a)
         print("model ", m)
         if a != m:
@@ -1465,11 +1751,11 @@ def replay(data):
             desc = describe(conf.doc, ident, [0])
             c = dict(c, docs=[desc])
             a, plain = run_impl(c, [conf.doc], ident, conf=conf)
-            m = run_driver("C20", [sel_line(dict(c, start="doc 0"))])[0]
+            m = model_sel([c], start="doc 0")[0]
         else:
             tops, ident, _k = build_entries(c["docs"])
             a, plain = run_impl(c, tops, ident)
-            m = run_driver("C20", [sel_line(c)])[0]
+            m = model_sel([c])[0]
         print("impl returned %s   model %s" % (a, m))
         oracle_select(rec, c, a, plain_ids(plain, ident))
     known = set()
